@@ -19,10 +19,10 @@ ASSUMPTIONS = ['tilt-free wavefronts only (tilt is C04)', 'all-zero masks are re
 PLAN = {'quick': {'gen': 8}, 'thorough': {'gen': 16, 'tests': 1, 'docs': 1}}
 REQUIRED_BUCKETS = ['in:ee', 'in:oo', 'in:eo', 'in:oe', 'out:even', 'out:odd', 'dx:iso', 'dx:aniso', 'du:iso', 'du:aniso',
                     'prop<shape', 'prop=shape', 'mask', 'nomask', 'dir:pupil->image', 'dir:image->pupil', 'chain:2',
-                    'mask+prop', 'repeated', 'segmented', 'broadband']
-REQUIRED_ANCHORS = ['probe:propagate_dft', 'anchor:_dft_alpha', 'anchor:_mask_shift', 'anchor:dft2',
+                    'mask+prop', 'repeated', 'segmented', 'broadband', 'fft:broadband-scratch', 'alpha:near-critical']
+REQUIRED_ANCHORS = ['probe:propagate_dft', 'probe:propagate_fft', 'anchor:_dft_alpha', 'anchor:_mask_shift', 'anchor:dft2',
                     'anchor:intersection_shift']
-REQUIRED_ORACLES = ['dft=fraunhofer', 'dft=fraunhofer:meta', 'dft=fraunhofer:outside=0']
+REQUIRED_ORACLES = ['dft=fraunhofer', 'dft=fraunhofer:meta', 'dft=fraunhofer:outside=0', 'fft=fraunhofer', 'fft=fraunhofer:meta']
 
 
 def anchors(lentil):
@@ -37,8 +37,13 @@ def dft_oracle(ctx, args, kwargs, result, exc, pre):
     propmodel.check_dft(ctx, 'propagate_dft', a['wavefront'], a, result, exc)
 
 
+def fft_oracle(ctx, args, kwargs, result, exc, pre):
+    propmodel.check_fft(ctx, 'propagate_fft', propmodel.bind_fft(args, kwargs), result, exc)
+
+
 def install(ctx, lentil):
     probe.wrap_function(lentil.propagate.propagate_dft, dft_oracle, ctx, 'propagate_dft')
+    probe.wrap_function(lentil.propagate.propagate_fft, fft_oracle, ctx, 'propagate_fft')
 
 
 def broadband(ctx, lentil, rng):
@@ -65,9 +70,71 @@ def broadband(ctx, lentil, rng):
                 pass
 
 
+def fft_broadband(ctx, lentil, rng):
+    """The FFT propagator over a band with one scratch buffer shared by all wavelengths (grids of different sizes follow each
+    other, larger before smaller and back), segmented and whole pupils; the online oracle checks every call."""
+    for i in range(ctx.count(10, 60)):
+        os_ = int(rng.integers(1, 4))
+        pshape = gen.rshape(rng, 3, 14)
+        A = gen.support(rng, pshape)
+        dx0 = float(rng.uniform(0.5e-3, 5e-3))
+        z = float(rng.uniform(0.5, 30))
+        wl0 = float(rng.uniform(4e-7, 1e-6))
+        G0 = int(rng.integers(max(pshape) + 2, 3 * max(pshape) + 6))
+        du0 = wl0 * z * os_ / (dx0 * (G0 + float(rng.uniform(-0.3, 0.3))))
+        kw = {}
+        if i % 2:
+            segs, _ = gen.partition(rng, A, int(rng.integers(2, 5)))
+            kw['mask'] = segs.astype(float)
+        pupil = lentil.Pupil(amplitude=gen.amplitude(rng, A), opd=gen.opd(rng, pshape, wl0), pixelscale=dx0, focal_length=z, **kw)
+        wls = [wl0 * f for f in (1.0, float(rng.uniform(1.3, 2.2)), float(rng.uniform(1.05, 1.25)), 1.0, float(rng.uniform(1.5, 2.0)))]
+        need = lentil.scratch_shape(wls, dx0, du0, z, os_)
+        extra = (int(rng.integers(0, 6)), int(rng.integers(0, 9)))
+        scratch = np.zeros((need[0] + extra[0], need[1] + extra[1]), complex)
+        if i % 3 == 0:
+            scratch[:] = rng.normal(size=scratch.shape) + 1j * rng.normal(size=scratch.shape)
+        ctx.case({'fft-broadband': wls, 'pupil': list(pshape), 'os': os_, 'G0': G0, 'seg': bool(i % 2), 'extra': list(extra)},
+                 ['fft:broadband-scratch'])
+        for wl in wls:
+            try:
+                lentil.propagate_fft(lentil.Wavefront(wl) * pupil, du0, oversample=os_, scratch=scratch)
+                if rng.random() < 0.3:
+                    lentil.propagate_fft(lentil.Wavefront(wl) * pupil, du0, oversample=os_)
+            except Exception as e:
+                ctx.check(False, 'fft=fraunhofer', f'fft-broadband|raises={type(e).__name__}', str(e), {'wl': wl})
+
+
+def near_critical(ctx, lentil, rng):
+    """Samplings a few parts per million away from alpha = 1/n with the output array of the pupil's own size: an ordinary
+    alpha like any other (a wavelength sweep passes through such values)."""
+    for i in range(ctx.count(10, 60)):
+        n = gen.rshape(rng, 6, 24)
+        if i % 2:
+            n = (n[0], n[0])
+        os_ = int(rng.integers(1, 3))
+        if n[0] % os_ or n[1] % os_:
+            os_ = 1
+        A = gen.support(rng, n)
+        dx0 = float(rng.uniform(0.5e-3, 5e-3))
+        z = float(rng.uniform(0.5, 30))
+        wl = float(rng.uniform(4e-7, 2e-6))
+        eps = float(rng.choice([-1, 1])) * 10 ** float(rng.uniform(-8, -5.2)) if i % 4 else 0.0
+        du = (wl * z * os_ / (dx0 * n[0]) * (1 + eps), wl * z * os_ / (dx0 * n[1]) * (1 + eps))
+        ctx.case({'near-critical': list(n), 'eps': eps, 'os': os_, 'wl': wl}, ['alpha:near-critical'])
+        full = rng.random() < 0.5
+        amp = np.ones(n) if full else gen.amplitude(rng, A)
+        w = lentil.Wavefront(wl) * lentil.Pupil(amplitude=amp, opd=gen.opd(rng, n, wl), pixelscale=dx0, focal_length=z)
+        try:
+            lentil.propagate_dft(w, du, shape=(n[0] // os_, n[1] // os_), oversample=os_)
+        except Exception as e:
+            ctx.check(False, 'dft=fraunhofer', f'near-critical|raises={type(e).__name__}', str(e), {'n': list(n)})
+
+
 def workload(ctx, lentil):
     rng = ctx.rng
     broadband(ctx, lentil, rng)
+    fft_broadband(ctx, lentil, rng)
+    near_critical(ctx, lentil, rng)
     n = ctx.count(150, 1000)
     hi = 24 if ctx.tier == 'quick' else 48
     for i in range(n):
